@@ -26,6 +26,9 @@ CHECKS = {
  "C13": dict(cat="fault_enumeration", technique="deterministic simulation: single-fault enumeration on both sides of a real fork/exec at the sc seam, process-tree and exec-target dump as oracle",
    text="12 base commands plus seeded generated commands are spawned for real; every system call of spawn on the parent side and of the child between fork and exec is failed with every plausible errno (the plan crosses fork in the copied address space, child-side events come back through a shared page). Oracle: code right after spawn() detects execution in a second process; Ok => the exec target's dump (argv, raw env block, cwd, pgid, uid/gid, identity of fds 0-2) equals the configuration and wait yields its exit status; failing step => Err with that errno and no child left alive.",
    note="Built without the start feature (Environment::Inherit not exercised); close faults, EINTR on the sync-pipe read and child write/exit faults after a failed exec are treated as transparent/unjudged.", ref="DESIGN.md §3 C13"),
+ "C14": dict(cat="exploration", technique="deterministic simulation: seeded operation histories on a real file system behind the sc seam with short-transfer/EINTR/getdents-window/hard-error injection, model tree + std::fs observer",
+   text="Seeded histories of tiny_std::fs operations run in a fresh directory on the real kernel file system; paths cover relative/absolute/dot, repeated and trailing separators, names up to 255 bytes, non-UTF-8, depths past the 512-byte stack buffer up to ~4000 bytes, trees with files, directories, symlinks to outside/dangling and fifos. Half of the cases inject short read/write/copy_file_range, EINTR, a reduced getdents window and one hard EIO/ENOSPC at the sc seam. When an operation returns Ok, the tree observed through std::fs must equal the model after that operation, returned data must equal the model's, a sentinel tree outside must be unchanged and iteration must yield every entry exactly once; Ok after a hard error is a violation. Sampling, not proof.",
+   note="No post-condition is demanded after Err; operations are only pointed at link-free paths (following a link legitimately acts outside the tree); rename/exists/metadata are not judged beyond simple agreement.", ref="DESIGN.md §3 C14"),
 }
 NA = {
  "C07": "pure function of the initial process image (argv/env/aux on the start-up stack): no schedule, clock, fault or second party to simulate",
